@@ -81,8 +81,16 @@ func (r *Report) Floor(rule string, want int) {
 			got++
 		}
 	}
-	if got < want {
-		r.Fail(rule, "floor", "", fmt.Sprintf("rule matched %d instances, at least %d were confirmed by hand on the reference tree: the rule's anchors no longer cover the code", got, want))
+	// The floor guards against a rule that silently matches (almost) nothing after its anchors
+	// moved. The number of obligations legitimately changes when code is deduplicated into a
+	// helper or a loop replaces repeated statements, so the threshold is half of what was
+	// confirmed by hand on the reference tree, never less than one.
+	need := (want + 1) / 2
+	if need < 1 {
+		need = 1
+	}
+	if got < need {
+		r.Fail(rule, "floor", "", fmt.Sprintf("rule matched %d instances, %d were confirmed by hand on the reference tree and at least %d are required: the rule's anchors no longer cover the code", got, want, need))
 	}
 }
 
